@@ -75,6 +75,7 @@ def drive(rec, part, ms, quick):
         for (fn, how, mask) in variants:
             X, R = Buf(8 * n, off=rng.choice([0, 8, 24])), Buf(8 * n, fill=0xEE, off=rng.choice([0, 8, 24]))
             X.i64[:] = xs
+            X.readonly(True)      # (page-protection observer: the input is read-only during the call)
             if not rec.progress("%s m=%d mask=%d" % (fn, m, mask)):
                 continue
             if how == "simple":
@@ -100,6 +101,7 @@ def drive(rec, part, ms, quick):
                         continue
                     X, R = Buf(8 * n, off=rng.choice([0, 8, 24])), Buf(8 * n, fill=0xEE, off=rng.choice([0, 8, 24]))
                     X.i64[:] = xs
+                    X.readonly(True)      # (page-protection observer: the input is read-only during the call)
                     if not rec.progress("%s m=%d mask=%d log2bound=%d" % (fn, m, mask, b)):
                         continue
                     if how == "simple":
@@ -130,6 +132,7 @@ def drive(rec, part, ms, quick):
             for (fn, how, mask) in variants:
                 X, R = Buf(8 * n, off=rng.choice([0, 8, 24])), Buf(8 * n, fill=0xEE)
                 X.f64[:] = xs
+                X.readonly(True)      # (page-protection observer: the input is read-only during the call)
                 if not rec.progress("%s m=%d dl=%d bound=%d mask=%d" % (fn, m, dl, bound, mask)):
                     continue
                 if how == "simple":
@@ -153,6 +156,7 @@ def drive(rec, part, ms, quick):
                 for mask in (MASK_NONE, MASK_GENERIC):
                     X, R = Buf(8 * n, off=rng.choice([0, 8, 24])), Buf(8 * n, fill=0xEE)
                     X.f64[:] = xs
+                    X.readonly(True)      # (page-protection observer: the input is read-only during the call)
                     if not rec.progress("reim_to_znx64 m=%d dl=%d bound=%d mask=%d (sweep)" % (m, dl, bound, mask)):
                         continue
                     t = tables.get("new_reim_to_znx64_precomp", m, mask, ("d", 2.0 ** dl), ("w", bound))
@@ -169,6 +173,7 @@ def drive(rec, part, ms, quick):
                 for mask in (MASK_NONE, MASK_GENERIC):
                     X, R = Buf(8 * n, off=rng.choice([0, 8, 24])), Buf(4 * n, fill=0xEE)
                     X.f64[:] = xs
+                    X.readonly(True)      # (page-protection observer: the input is read-only during the call)
                     if not rec.progress("cplx_to_tnx32 m=%d dl=%d ovh=%d mask=%d (sweep)" % (m, dl, ovh, mask)):
                         continue
                     t = tables.get("new_cplx_to_tnx32_precomp", m, mask, ("d", 2.0 ** dl), ("w", ovh))
@@ -189,6 +194,7 @@ def drive(rec, part, ms, quick):
             for (fn, how, mask) in variants:
                 X, R = Buf(4 * n), Buf(8 * n, fill=0xEE, off=rng.choice([0, 8, 24]))
                 X.view(np.int32)[:] = xs
+                X.readonly(True)      # (page-protection observer: the input is read-only during the call)
                 if not rec.progress("%s m=%d mask=%d" % (fn, m, mask)):
                     continue
                 if how == "simple":
@@ -213,6 +219,7 @@ def drive(rec, part, ms, quick):
             for (fn, how, mask) in variants:
                 X, R = Buf(8 * n, off=rng.choice([0, 8, 24])), Buf(4 * n, fill=0xEE)
                 X.f64[:] = xs
+                X.readonly(True)      # (page-protection observer: the input is read-only during the call)
                 if not rec.progress("%s m=%d dl=%d ovh=%d mask=%d" % (fn, m, dl, ovh, mask)):
                     continue
                 if how == "simple":
@@ -239,6 +246,7 @@ def drive(rec, part, ms, quick):
             for (fn, how, mask) in variants:
                 X, R = Buf(8 * n, off=rng.choice([0, 8, 24])), Buf(8 * n, fill=0xEE)
                 X.f64[:] = xs
+                X.readonly(True)      # (page-protection observer: the input is read-only during the call)
                 if not rec.progress("%s m=%d dl=%d ovh=%d mask=%d" % (fn, m, dl, ovh, mask)):
                     continue
                 t = tables.get("new_reim_to_tnx_precomp", m, mask, ("d", d), ("w", ovh))
